@@ -109,12 +109,6 @@ def sm3Steps (ps : List (List Nat)) : Nat → List SM3Param → Except Err (List
       let L' ← sm3Step ps L
       sm3Steps ps k L'
 
-def shardedSteps (c : Cfg) (ps : List (List Nat)) : Nat → ShardedLayout → Except Err ShardedLayout
-  | 0, L => pure L
-  | k + 1, L => do
-      let L' ← shardedStep c ps L
-      shardedSteps c ps k L'
-
 def ops : List Op := [
   ("ds", fun j => do
     let c ← parseCfg (← field j "cfg")
